@@ -1,7 +1,7 @@
 (** C07 — Qremote delivers the queued message content unchanged.
     Only statements here; proofs live in Proofs/Qr*.v. *)
 From Qv Require Import Common.Bytes Gen.GenQrdata Model.Mime Model.QrData Spec.SmtpDataSpec
-  Proofs.QrNeedRecodeProofs Proofs.QrPlainSpecProofs.
+  Proofs.QrNeedRecodeProofs Proofs.QrPlainSpecProofs Proofs.QrQpDecodeProofs Proofs.QrQpTopProofs.
 
 (** When no recoding is necessary, what is sent after the 354 is, byte for byte, the message with CR, LF
     and CRLF line ends normalised to CRLF (a final CRLF added if missing; the empty message stays
@@ -13,6 +13,21 @@ Theorem C07_plain_exact : forall (m helo : bytes) (ext8 : bool),
                 concat (rev (out st)) = plain_wire m.
 Proof. exact send_data_plain. Qed.
 Print Assumptions C07_plain_exact.
+
+(** recode_qp() on any window (body or MIME part) of any message made of octets: what it writes — with
+    the CRLF the terminator adds when the last line is open — is decoded by the strict RFC 2045
+    receiver of Spec/SmtpDataSpec.v (transparency dots removed, soft line breaks joined, =XX decoded,
+    nothing else tolerated) to the window with CR, LF, CRLF normalised to CRLF, up to the CRLF that ends
+    the last line.  Holds whatever the positions of the 1280-octet staging-buffer boundaries. *)
+Theorem C07_qp_body : forall (m : bytes) (b len : nat),
+  b + len <= length m -> Forall (fun c => (c < 256)%N) m ->
+  exists st', recode_qp m b len (mkSt [] true) = Ok st' /\
+    qp_roundtrip (sub m b len) (concat (rev (out st')) ++ (if lastlf st' then [] else CRLF)).
+Proof.
+  intros m b len H1 H2. destruct (recode_qp_correct m b len H1 H2) as (st' & E & HR & _).
+  exists st'. split; [exact E|exact HR].
+Qed.
+Print Assumptions C07_qp_body.
 
 Example C07_nonvacuous :
   let m := [97; 13; 98; 10; 46; 99; 13; 10; 46; 46; 100]%N in
